@@ -220,7 +220,13 @@ func clipq(s string) string {
 		}
 		b.WriteRune(r)
 	}
-	out := []rune(b.String())
+	str := b.String()
+	if i := strings.Index(str, ": open "); i >= 0 { // "failed to import …: open d/x.d2: file does not exist"
+		if j := strings.Index(str[i+7:], ":"); j >= 0 {
+			str = str[:i+7] + "…" + str[i+7+j:]
+		}
+	}
+	out := []rune(str)
 	if len(out) > 70 {
 		out = out[:70]
 	}
